@@ -46,6 +46,19 @@ CHECKS.update({
             "DESIGN.md §3 C07"),
 })
 
+CHECKS.update({
+    "C12": ("exploration",
+            "model-based property testing (restore round trip) + complete single-fault enumeration over small archives + generated retention timelines",
+            "Generated histories with full/incremental backups at quiescent points (snapshots, rotation, compaction, restarts in between): every backup restored into an empty directory, recovered strictly and compared with the model as of that backup; point-in-time targets on real 1.1 s spaced backups; EVERY byte x bits {0,5} (all 8 bits in thorough) and every truncation length of three small archives and their metadata, restored over a directory of sentinel files: rejected with the target byte-identical, or accepted with the expected collection; non-empty target without confirmation; synthetic retention timelines x policies: survivors keep all ancestors, reported == deleted.",
+            "Backups are taken while no write is in flight. Tamper enumeration is complete only for the three fixed fixtures. Retention timelines are synthetic metadata with stub archives.",
+            "DESIGN.md §3 C12"),
+    "C13": ("fault_enumeration",
+            "fault injection over generated data directories (structure-aware single-fault generator), round-trip oracle against the pre-damage dump",
+            "Generated data directories (histories with snapshots, rotation, compaction, restarts) x generated single faults per file class (MANIFEST, newest/non-final/unlisted WAL, primary/stale snapshot): bit flips at structural offsets parsed from the files (magic, frame length, CRC, entry header, seq_no, snapshot size/version/last_wal_seq, every manifest byte) and random offsets, truncation at frame boundaries +-1 and random lengths, deletion. Strict recover must return Err or exactly the pre-damage dump; faults on the newest listed segment may also yield a frame-prefix replay (the property's exclusion). ~28 faults per directory, 1500 directories in the quick tier.",
+            "Engine-level strict recovery. Snapshot size-field faults are recovered in a child process (the engine may abort on an unbounded allocation; an abort counts as refusing to start). Two listed known findings (C13-F1a/b) are counted and the search continues behind them.",
+            "DESIGN.md §3 C13"),
+})
+
 NOT_APPLICABLE = {
 }
 
